@@ -71,6 +71,7 @@ pub fn run<S: CtxSpec>(cx: &mut Cx) {
     sink!(S::F2);
     sink!(S::F3);
     let rt = match Runtime::from_lib(host::lib())
+        .and_then(|mut rt| rt.add(crate::align::items()).map(|_| rt))
         .and_then(|mut rt| rt.add(items).map(|_| rt))
         .map_err(|e| e.to_string())
         .and_then(|rt| rt.with_context_type::<S>())
@@ -111,31 +112,54 @@ pub fn run<S: CtxSpec>(cx: &mut Cx) {
         Ok(func) => {
             let mut h = 0u64;
             let mut cnt = 0u64;
+            let over = S::F0::over_aligned() || S::F1::over_aligned() || S::F2::over_aligned() || S::F3::over_aligned();
+            let mut reached = 4;
             for i in 0..n {
-                let s = (R6 << 44) | i as u64;
-                if !cx.case(s) {
-                    continue;
-                }
-                let (v0, v1, v2, v3) = (&e0[i % e0.len()], &e1[i % e1.len()], &e2[i % e2.len()], &e3[i % e3.len()]);
-                let want = vec![v0.show(), v1.show(), v2.show(), v3.show()];
-                let mut c = S::make(v0.clone(), v1.clone(), v2.clone(), v3.clone());
-                take_log();
-                func.call(&mut c);
-                let got = take_log();
-                drop(c);
-                cnt += 1;
-                for g in &got {
-                    h = vcore::util::mix(h, vcore::util::fnv_str(g));
-                }
-                if got != want {
-                    let bad: Vec<&str> =
-                        (0..4).filter(|j| got.get(*j) != want.get(*j)).map(|j| S::FIELDS[j]).collect();
-                    let mut cj = case::<S>(i, &want);
-                    cj["fields_wrong"] = json!(bad);
-                    cj["sinks_saw_this_run"] = json!(got);
-                    let agree = crate::routes::agree_list(&want, &got);
-                    cx.violation("mismatch", s, cj, json!({"sinks_saw": want}), json!({"sinks_agree": agree}));
-                }
+                let r = crate::align::for_residues(over, &mut |k| {
+                    let s = (R6 << 44) | (k << 32) | i as u64;
+                    if !cx.case(s) {
+                        return;
+                    }
+                    let (v0, v1, v2, v3) =
+                        (&e0[i % e0.len()], &e1[i % e1.len()], &e2[i % e2.len()], &e3[i % e3.len()]);
+                    let want = vec![v0.show(), v1.show(), v2.show(), v3.show()];
+                    let mut c = S::make(v0.clone(), v1.clone(), v2.clone(), v3.clone());
+                    take_log();
+                    crate::align::take_events();
+                    func.call(&mut c);
+                    let got = take_log();
+                    drop(c);
+                    cnt += 1;
+                    for g in &got {
+                        h = vcore::util::mix(h, vcore::util::fnv_str(g));
+                    }
+                    let ev = crate::align::take_events();
+                    if !ev.is_empty() {
+                        let mut cj = case::<S>(i, &want);
+                        cj["stack_residue_class"] = json!(k);
+                        cj["all_on_stack"] = json!(ev.iter().all(|e| e.on_stack));
+                        cj["max_align"] = json!(ev.iter().map(|e| e.align).max());
+                        let ops: Vec<String> = ev
+                            .iter()
+                            .map(|e| format!("{} {}: address % {} = {}", e.ty, e.op, e.align, e.rem))
+                            .collect();
+                        cx.violation("misaligned", s, cj, json!("every address at which a registered type is cloned, dropped or compared is a multiple of its alignment"), json!(ops));
+                    }
+                    if got != want {
+                        let bad: Vec<&str> =
+                            (0..4).filter(|j| got.get(*j) != want.get(*j)).map(|j| S::FIELDS[j]).collect();
+                        let mut cj = case::<S>(i, &want);
+                        cj["fields_wrong"] = json!(bad);
+                        cj["stack_residue_class"] = json!(k);
+                        cj["sinks_saw_this_run"] = json!(got);
+                        let agree = crate::routes::agree_list(&want, &got);
+                        cx.violation("mismatch", s, cj, json!({"sinks_saw": want}), json!({"sinks_agree": agree}));
+                    }
+                });
+                reached = reached.min(r);
+            }
+            if reached < 4 {
+                cx.count("stack_residues_not_reached", 1);
             }
             cx.states(cnt * 4);
             cx.transitions(cnt);
@@ -164,7 +188,7 @@ pub fn describe<S: CtxSpec>(t: Tier, s: u64) -> Value {
     if s == SUB_SETUP {
         return case::<S>(0, &[]);
     }
-    let i = (s & ((1 << 36) - 1)) as usize;
+    let i = (s & 0xffff_ffff) as usize;
     let want: Vec<String> = {
         let (e0, e1, e2, e3) = (S::F0::edges(t), S::F1::edges(t), S::F2::edges(t), S::F3::edges(t));
         vec![e0[i % e0.len()].show(), e1[i % e1.len()].show(), e2[i % e2.len()].show(), e3[i % e3.len()].show()]
